@@ -1,5 +1,6 @@
 from __future__ import annotations
 
+import copy
 import random
 import re
 import string
@@ -223,7 +224,7 @@ class SigmaFilter(SigmaRuleBase):
 
         # Rename every filter detection identifier with the shared prefix.
         for original_cond_name, condition in self.filter.detections.items():
-            rule.detection.detections[prefix + "_" + original_cond_name] = condition
+            rule.detection.detections[prefix + "_" + original_cond_name] = copy.deepcopy(condition)
 
         # Rewrite the filter condition string so that every identifier/pattern token is
         # prefixed.  This handles:
